@@ -757,5 +757,65 @@ def item_c01_freq_axes(repo, out):
     out.append('Definition gen_v3_spw_prog : list Z := [%s].' % '; '.join(coq_Z(c) for c in prog))
 
 
+# ------------------------------------------------------------------------------------------------ keepdims
+
+def item_c01_keepdims(repo, out):
+    """The keepdims glue of the v2 / v3 readers: _force_full_dim re-inserts one axis per scalar of the (padded /
+    truncated) second-stage index and is appended LAST to the transforms iff self._keepdims, which is the keepdims
+    argument of the constructor (default False)."""
+    rows = []
+    forms = {
+        'H5DataV2': ('_force_3dim',
+                     ['keep=keep[:3]+(slice(None),)*(3-len(keep))',
+                      'keep_singles=[np.newaxisifnp.isscalar(dim_keep)elseslice(None)fordim_keepinkeep]',
+                      'returndata[tuple(keep_singles)]'],
+                     ["force_3dim=LazyTransform('force_3dim',_force_3dim)",
+                      'transforms=[extractor,force_3dim]ifself._keepdimselse[extractor]',
+                      'returnLazyIndexer(dataset,stage1,transforms)']),
+        'H5DataV3': ('_force_full_dim',
+                     ['keep=keep[:dims]+(slice(None),)*(dims-len(keep))',
+                      'keep_singles=[np.newaxisifnp.isscalar(dim_keep)elseslice(None)fordim_keepinkeep]',
+                      'returndata[tuple(keep_singles)]'],
+                     ["force_full_dim=LazyTransform('force_full_dim',_force_full_dim)", 'transforms=[]',
+                      'ifextractor:transforms.append(extractor)', 'ifself._keepdims:transforms.append(force_full_dim)',
+                      'returnLazyIndexer(dataset,stage1,transforms)'])}
+    for rel, cname in (('katdal/h5datav2.py', 'H5DataV2'), ('katdal/h5datav3.py', 'H5DataV3')):
+        cls = _class(_parse(repo, rel), cname, rel)
+        fn = _func(cls, '_vislike_indexer', rel)
+        fname, want, want_tail = forms[cname]
+        inner = [n for n in fn.body if isinstance(n, ast.FunctionDef) and n.name == fname]
+        if len(inner) != 1 or [a.arg for a in inner[0].args.args] != ['data', 'keep']:
+            raise TranslateError('%s._vislike_indexer: %s(data, keep) not found' % (cname, fname))
+        body = [_norm(n) for n in inner[0].body if not (isinstance(n, ast.Expr) and isinstance(n.value, ast.Constant))]
+        if body != want:
+            raise TranslateError('%s.%s: body is %s' % (cname, fname, body))
+        tail = [_norm(n).replace('\n', '') for n in fn.body[fn.body.index(inner[0]) + 1:]]
+        if tail != want_tail:
+            raise TranslateError('%s._vislike_indexer: transform assembly is %s' % (cname, tail))
+        init = _func(cls, '__init__', rel)
+        sets = [n for n in ast.walk(cls) if isinstance(n, (ast.Assign, ast.AugAssign))
+                and any(_norm(t) == 'self._keepdims' for t in (n.targets if isinstance(n, ast.Assign) else [n.target]))]
+        if len(sets) != 1 or sets[0] not in init.body or _norm(sets[0]) != 'self._keepdims=keepdims':
+            raise TranslateError('%s: self._keepdims is not set once, unconditionally, from the keepdims argument' % cname)
+        names = [a.arg for a in init.args.args]
+        dflt = dict(zip(names[len(names) - len(init.args.defaults):], init.args.defaults))
+        if 'keepdims' not in dflt or _norm(dflt['keepdims']) != 'False':
+            raise TranslateError('%s.__init__: keepdims does not default to False' % cname)
+        # vis / flags / weights all go through _vislike_indexer with the default dims; only the helper indexer of the
+        # per-channel weights (dims=2) has its transforms cleared
+        for prop in ('vis', 'flags', 'weights'):
+            pf = _func(cls, prop, rel)
+            rets = [n for n in ast.walk(pf) if isinstance(n, ast.Return) and n.value is not None and n in pf.body]
+            calls = [n for n in ast.walk(pf) if isinstance(n, ast.Call) and _norm(n.func) == 'self._vislike_indexer']
+            main = [c for c in calls if not any(k.arg == 'dims' for k in c.keywords) and len(c.args) + len(c.keywords) == 2]
+            if len(rets) != 1 or len(main) != 1:
+                raise TranslateError('%s.%s: not one _vislike_indexer(dataset, extract) call' % (cname, prop))
+            clears = [n for n in ast.walk(pf) if isinstance(n, ast.Assign) and _norm(n.targets[0]).endswith('.transforms')]
+            if any(_norm(n.targets[0]) != 'weights_channel.transforms' for n in clears):
+                raise TranslateError('%s.%s: transforms of the returned indexer are modified' % (cname, prop))
+        rows.append('(%s, true)' % coq_string(cname))
+    out.append('Definition keepdims_glue : list (string * bool) := [%s].' % '; '.join(rows))
+
+
 ITEMS = [item_c01_attrs, item_c01_tconv, item_c01_conj, item_c01_weight_names, item_c01_snapshot,
-         item_c01_sensor_grid, item_c01_construction_grid, item_c01_freq_axes]
+         item_c01_sensor_grid, item_c01_construction_grid, item_c01_freq_axes, item_c01_keepdims]
